@@ -47,7 +47,7 @@ func checkC13(w *World, r *Report) {
 	c13Gate(w, r, up, "C13.a", "C13.b")
 	c13Client(w, r)
 	c13Determinism(w, r, up)
-	c13Snapshot(w, r, meta)
+	c13Snapshot(w, r, meta, "C13.e", "e-snapshot-symmetry")
 	c13Locks(w, r)
 	c13Listings(w, r)
 }
@@ -434,8 +434,8 @@ func c13Determinism(w *World, r *Report, up *ssa.Function) {
 	ob.NeedFloor(1)
 }
 
-func c13Snapshot(w *World, r *Report, meta *types.Named) {
-	ob := r.Ob("C13.e", "e-snapshot-symmetry", "MapStore.MarshalJSON marshals the map field that UnmarshalJSON decodes into, after replacing it by a fresh map; the state machine's PrepareSnapshot marshals its store field and RecoverFromSnapshot decodes into the same field", "a snapshot that restores into a different or merged map resurrects deleted tables/leases")
+func c13Snapshot(w *World, r *Report, meta *types.Named, id, slug string) {
+	ob := r.Ob(id, slug, "MapStore.MarshalJSON marshals the map field that UnmarshalJSON decodes into, after replacing it by a fresh map; the state machine's PrepareSnapshot marshals its store field and RecoverFromSnapshot decodes into the same field", "a snapshot that restores into a different or merged map resurrects deleted tables/leases")
 	mj := w.Func("storage/kv", "MapStore.MarshalJSON")
 	uj := w.Func("storage/kv", "MapStore.UnmarshalJSON")
 	if mj == nil || uj == nil {
@@ -727,6 +727,24 @@ func metaUpdate(w *World) *ssa.Function {
 	for _, t := range w.Implementers(it) {
 		if n, ok := deref(t).(*types.Named); ok && n.Obj().Pkg().Path() == kvPath {
 			return w.MethodOf(types.NewPointer(n), "Update")
+		}
+	}
+	return nil
+}
+
+// metaType: the metadata state machine type (implements IConcurrentStateMachine in storage/kv).
+func metaType(w *World) *types.Named {
+	smp := w.ByPath[smPath]
+	if smp == nil {
+		return nil
+	}
+	it, ok := smp.Types.Scope().Lookup("IConcurrentStateMachine").Type().Underlying().(*types.Interface)
+	if !ok {
+		return nil
+	}
+	for _, t := range w.Implementers(it) {
+		if n, ok := deref(t).(*types.Named); ok && n.Obj().Pkg().Path() == kvPath {
+			return n
 		}
 	}
 	return nil
